@@ -12,6 +12,7 @@ mod layout;
 mod monitors;
 mod ops;
 mod runner;
+mod sacrifice;
 mod shim;
 mod util;
 
